@@ -77,6 +77,23 @@ def register_shape(R):
     )
 
 
+def register_simplify(R):
+    R.contract(
+        "rich.segment", "Segment.simplify", serves=["C13", "C15"],
+        params={"segments": "list[Segment]"}, returns="list[Segment]", ghost={"yields": "Segment"},
+        ensures=[
+            # merging neighbours never changes what a line occupies, never adds segments, never drops the last one
+            "line_cells(result) == line_cells(segments)",
+            "len(result) <= len(segments)",
+            "implies(len(segments) > 0, len(result) >= 1)",
+        ],
+        loops={0: Loop(header="for segment in iter_segments", index="i",
+                       invariant=["line_cells(__yielded__) + (0 if last_segment.is_control else cells(last_segment.text)) == line_cells(segments[:i + 1])",
+                                  "len(__yielded__) <= i"])},
+        native=False,
+    )
+
+
 _s0 = register
 
 
@@ -84,3 +101,4 @@ def register(R):
     _s0(R)
     register_split(R)
     register_shape(R)
+    register_simplify(R)
